@@ -19,6 +19,7 @@ func AllMonitors() []Monitor {
 		&MonC07{},
 		&MonC08{},
 		&MonC09{},
+		&MonC10{},
 	}
 }
 
